@@ -1,4 +1,4 @@
 SPECIFICATION Spec
-CONSTANTS BaseSet = {1,2,3,4,5,6,7,8,9}  PairBaseSet = {}  HierarchyCheck = TRUE  Shortcut = "sample"
+CONSTANTS BaseSet = {1,3,7}  PairBaseSet = {}  HierarchyCheck = TRUE  Shortcut = "sample"
 CHECK_DEADLOCK FALSE
 INVARIANT RejectedNotComputed
